@@ -7,9 +7,9 @@ import math
 
 import numpy as np
 
-GEOS = ("lin", "tight", "log", "mixed", "unb", "log2", "lin2", "mixunb")
+GEOS = ("lin", "tight", "log", "mixed", "unb", "log2", "lin2", "mixunb", "log3")
 MODES = ("det", "auto", "decl", "spec")
-ANS = ("F", "I", "S", "E")  # default first
+ANS = ("F", "I", "S", "E", "T")  # default first; T = improvement exactly equal to the sufficient-improvement threshold
 NOISE = ("alt", "LOW", "HIGH")
 SIGMA = 0.5
 
@@ -39,6 +39,9 @@ def geometry(geo, D):
         elif g == "log2":  # decade bounds whose images lie exactly on the search grid (rounding at the bound matters)
             lb[i], ub[i], plb[i], pub[i] = 0.01, 10.0, 0.1, 1.0
             logc[i] = True
+        elif g == "log3":  # log-scaled with a lower bound above 1
+            lb[i], ub[i], plb[i], pub[i] = 10.0, 1000.0, 20.0, 500.0
+            logc[i] = True
         elif g == "lin2":  # hard bounds that are not multiples of the search mesh
             lb[i], ub[i], plb[i], pub[i] = -3.3, 4.1, -3.0, 4.0
         else:
@@ -55,6 +58,8 @@ def start_point(x0kind, geo, D):
     x = np.empty(D)
     base_lin = [1.0, -0.5, 0.75, 0.25, -1.25]
     base_log = [5.0, 0.5, 20.0, 2.0, 0.05] if geo not in ("log2", "mixunb") else [0.5, 0.3, 2.0, 0.7, 0.2]
+    if geo == "log3":
+        base_log = [100.0, 50.0, 200.0, 30.0, 400.0]
     for i in range(D):
         if x0kind == "in":
             x[i] = base_log[i % 5] if logc[i] else base_lin[i % 5]
@@ -103,6 +108,8 @@ def landscape_centre(kind, geo, D):
         return zu.copy()
     if kind == "sphere_out":
         return zu + 0.3 * w
+    if kind == "sphere_below":
+        return zl - 0.3 * w
     raise ValueError(kind)
 
 
@@ -138,6 +145,18 @@ def constraint(cons, geo, D, x0=None):
         name, par = cons[0], list(cons[1:])
     else:
         name, par = cons, []
+    nanv = name.endswith("_n")  # NaN variant: the (real-valued) constraint is undefined (NaN) where coordinate 0 is below its start value - 0.9
+    if nanv:
+        inner = constraint([name[:-2] + "_r"] + par, geo, D)
+        x00 = float(start_point("in", geo, D)[0, 0])
+
+        def fn(X):
+            X = np.atleast_2d(np.asarray(X, float))
+            v = np.asarray(inner(X), float).copy()
+            v[X[:, 0] < x00 - 0.9] = np.nan
+            return v
+
+        return fn
     col = name.endswith("_c")   # column-vector variant: returns an (N, 1) array (the shape the library's own message asks for)
     if col:
         inner = constraint([name[:-2]] + par, geo, D)
@@ -241,4 +260,4 @@ def half_for(x0kind, geo, D, real=False):
     rng = ub - lb
     rng = np.where(np.isfinite(rng), rng, 0.0)
     slack = 0.7 + 2.5e-3 * float(rng[0] + (rng[1] if D > 1 else 0.0))  # a start on a bound is moved 0.1% inside
-    return ["half_r" if real is True else ("half_c" if real == "col" else "half"), s + slack]
+    return [{True: "half_r", "col": "half_c", "nan": "half_n"}.get(real, "half"), s + slack]
